@@ -85,7 +85,7 @@ func vfFullRTClient(P int) (*FullRT, *vfHost, *vfSender, []peer.ID, *bool) {
 func VfFullRTSearchValue() {
 	P := vfParam("P")
 	vfHashBits(vfParam("W"))
-	vfHashConcrete()
+	vfHashFixed()
 	vfSchedBudget(vfParam("SWITCH"))
 	d, _, snd, ids, accepting2 := vfFullRTClient(P)
 	key := string(vfHashInput("key", []byte("/vf/"), 4))
@@ -226,7 +226,7 @@ func VfFullRTSearchValue() {
 func VfFullRTFindProviders() {
 	P := vfParam("P")
 	vfHashBits(vfParam("W"))
-	vfHashConcrete()
+	vfHashFixed()
 	vfSchedBudget(vfParam("SWITCH"))
 	d, _, snd, _, _ := vfFullRTClient(P)
 	ctx, cancel := context.WithCancel(context.Background())
@@ -254,9 +254,7 @@ func VfFullRTFindProviders() {
 		for i := 0; i < n; i++ {
 			id := cand[vfChoose("peer.provider", len(cand))]
 			rec := &dht_pb.Message_Peer{Id: []byte(id)}
-			if vfBool("peer.providerHasAddr") {
-				rec.Addrs = [][]byte{vfGroupAddr(7, i).Bytes()}
-			}
+			rec.Addrs = [][]byte{vfGroupAddr(7, i).Bytes()}
 			named[id] = true
 			resp.ProviderPeers = append(resp.ProviderPeers, rec)
 		}
@@ -299,7 +297,7 @@ func VfFullRTFindProviders() {
 func VfFullRTPutProvide() {
 	P := vfParam("P")
 	vfHashBits(vfParam("W"))
-	vfHashConcrete()
+	vfHashFixed()
 	vfSchedBudget(vfParam("SWITCH"))
 	d, h, snd, ids, _ := vfFullRTClient(P)
 	ctx := context.Background()
